@@ -46,6 +46,26 @@ SCRIPTED = [
     ("two-auth-cookies-okta", [
         "reset 0 0 0 0 okta", "login 0 1", "login 1 1", "oktaotp 1:2+0:2 0", "oktapushstart 1:2+0:2", "oktaapprove 0",
         "oktapoll 1:2+0:2", "oktapoll 0:2+1:2", "oktaotp 0:2+1:2 0"]),
+    ("okta-users-sharing-a-local-part", [
+        "reset 0 0 0 0 okta@", "login 0 1", "login 1 1", "oktapushstart 1:2", "oktaapprove 1", "oktapoll 0:2", "oktapoll 1:2",
+        "oktaotp 0:2 1", "oktaotp 0:2 0", "login 1 1", "login 0 1", "oktapushstart 0:2", "oktaapprove 0", "oktapoll 1:2",
+        "oktaotp 1:2 0", "oktaotp 1:2 1"]),
+    ("every-flow-with-users-sharing-a-local-part", [
+        "reset 7 0 7 0 htp@", "login 0 1", "login 1 1", "totp 1:2 0 0", "totp 0:2 1 0", "vipotp 1:2 0", "vipotp 0:2 0",
+        "pushstart 0:2 4", "approve 0", "poll 1:2 4", "poll 0:2 4", "u2fbegin 0:2", "u2ffinish 1:2 0 u 0", "u2ffinish 0:2 0 u 0",
+        "wabegin 1:2", "wafinish 0:2 1 w 1", "wafinish 1:2 1 w 1", "showtoken 0:18 120", "senddoc 1:2058 0:120",
+        "totprename 0:18 1", "hwrename 1:2058 0", "logout 0:2"]),
+    ("bootstrap-with-users-sharing-a-local-part", [
+        "reset 0 3 0 3 htp@", "login 0 1", "login 1 1", "bootstrap 1:2 0", "bootstrap 1:2 1", "bootstrap 0:2 1", "bootstrap 0:2 0",
+        "bootstrap 0:2 0"]),
+    ("totp-code-spent-then-device-enrolled-or-renamed", [
+        "reset 1 0 1 0 htp", "login 0 1", "totp 0:2 0 0", "totpenrol 0:66", "totp 0:2 0 0", "totprename 0:66 0", "totp 0:2 0 0",
+        "tick", "totp 0:2 0 0", "totp 0:2 0 1", "totpenrol 0:66", "hwrename 0:66 0", "totp 0:2 0 1", "totp 0:2 0 2",
+        "login 1 1", "totpenrol 1:2", "totprename 0:66 1", "totpenrol 0:66+1:2", "totpenrol 1:2+0:66"]),
+    ("bootstrap-otp-and-challenge-spent-then-profile-managed", [
+        "reset 4 3 2 0 htp", "login 0 1", "bootstrap 0:2 0", "totpenrol 0:258", "hwrename 0:258 0", "bootstrap 0:2 0",
+        "login 1 1", "u2fbegin 1:2", "u2ffinish 1:2 1 u 0", "hwrename 1:10 1", "totpenrol 1:10", "u2ffinish 1:2 1 u 0",
+        "wabegin 1:2", "hwrename 1:10 1", "wafinish 1:2 1 u 1", "totprename 1:10 1", "wafinish 1:2 1 u 1"]),
     ("legacy-enrolled-user-challenge-is-one-time", [
         "reset 11 0 10 0 htp", "login 0 1", "login 1 1",
         "u2fbegin 0:2", "u2ffinish 0:2 0 u 0", "u2ffinish 0:2 0 u 0", "u2ffinish 0:10 0 u 0",
@@ -127,7 +147,9 @@ class Seq:
                 self.flags[u] = rng.choice([0, 4])   # bootstrap OTPs need a user without U2F/TOTP registrations
                 self.boot[u] = rng.choice([1, 2, 3, 5])
             self.mode = "okta" if rng.random() < 0.2 else "htp"
-        self.ops = ["reset %d %d %d %d %s" % (self.flags[0], self.boot[0], self.flags[1], self.boot[1], self.mode)]
+        # naming of the two users: plain, or sharing their local part ("alice" / "alice@partner.example")
+        self.names = "@" if (not forced_cfg and rng.random() < (0.6 if self.mode == "okta" else 0.35)) else ""
+        self.ops = ["reset %d %d %d %d %s%s" % (self.flags[0], self.boot[0], self.flags[1], self.boot[1], self.mode, self.names)]
         self.cookies = []      # "u:l" in issue order (from model output)
         self.tokens = []       # "u:exp"
         self.now = 0
@@ -224,6 +246,40 @@ class Seq:
             ops.insert(2, again)
         return ops
 
+    def manage_flow(self):
+        """a one-time value is spent, the user manages the profile (enrols / renames a device: handlers that
+        rewrite the whole profile), then the value is presented again from another session"""
+        rng = self.rng
+        ck = self.pick_cookie()
+        sub = int(caller_of(ck).split(":")[0]) if ":" in ck else rng.choice(USERS)
+        upgraded = [c for c in self.cookies if c.split(":")[0] == str(sub) and int(c.split(":")[1]) & 472]
+        mc = rng.choice(upgraded) if upgraded else ck
+        manage = [rng.choice(["totpenrol %s" % mc, "totpenrol %s" % mc, "totprename %s %d" % (mc, sub),
+                              "hwrename %s %d" % (mc, sub)]) for _ in range(rng.choice([1, 1, 2]))]
+        kind = rng.choice(["totp", "totp", "bootstrap", "hw"])
+        if kind == "totp":
+            r = self.now + rng.choice([0, 0, 1])
+            self.totp_used.append((str(sub), r))
+            use = "totp %s %d %d" % (ck, sub, r)
+            if not upgraded:
+                manage = [m.replace(mc, "%d:%d" % (sub, PW | TOTP)) for m in manage]
+        elif kind == "bootstrap":
+            use = "bootstrap %s %d" % (ck, sub)
+            if not upgraded:
+                manage = [m.replace(mc, "%d:%d" % (sub, PW | BOOT)) for m in manage]
+        else:
+            regs = [t for t, bit in (("u", T_U2F), ("w", T_WA)) if self.flags[sub] & bit] or ["u"]
+            fam = rng.choice(["u2f", "wa"])
+            self.asserts.append((str(sub), regs[0], self.nchal))
+            use = "%sfinish %s %d %s %d" % (fam, ck, sub, rng.choice(regs), self.nchal)
+            if not upgraded:
+                manage = [m.replace(mc, "%d:%d" % (sub, PW | U2F)) for m in manage]
+            return ["%sbegin %s" % (fam, ck), use] + manage + [use.replace(ck, self.other_cookie(ck), 1), use]
+        ops = [use] + manage
+        if rng.random() < 0.3:
+            ops.append("tick")
+        return ops + [use.replace(ck, self.other_cookie(ck), 1), use]
+
     def flow(self):
         """a coherent multi-step flow (so that upgrades really happen), its last step possibly hijacked"""
         rng = self.rng
@@ -269,7 +325,8 @@ class Seq:
         target = len(self.ops) + k
         while len(self.ops) < target:
             if self.cookies and rng.random() < 0.3:
-                for op in (self.fault_flow() if rng.random() < 0.22 else self.flow()):
+                r = rng.random()
+                for op in (self.fault_flow() if r < 0.2 else self.manage_flow() if r < 0.42 else self.flow()):
                     if op == "tick":
                         self.now += 1
                     if op == "fault 0 0":
@@ -283,7 +340,7 @@ class Seq:
                 table += [("oktaotp", 5), ("oktapushstart", 6), ("oktaapprove", 6), ("oktapoll", 8)]
             elif rng.random() < 0.02:
                 table += [("oktapoll", 50)]
-            table += [("fault", 2)]
+            table += [("fault", 2), ("totpenrol", 2), ("totprename", 1), ("hwrename", 1)]
             if getattr(self, "fault", False):
                 table += [("heal", 12)]
             if not self.cookies:
@@ -334,6 +391,10 @@ class Seq:
             elif kind == "tick":
                 op = "tick"
                 self.now += 1
+            elif kind == "totpenrol":
+                op = "totpenrol %s" % ck
+            elif kind in ("totprename", "hwrename"):
+                op = "%s %s %s" % (kind, ck, self.owner_for(ck).replace("x", "0"))
             elif kind == "fault":
                 op = rng.choice(["fault 1 0", "fault 1 0", "fault 0 1", "fault 1 1"])
                 self.fault = True
@@ -400,7 +461,7 @@ def alphabet_for(digest, family):
                     ops += ["totp %s+%s 0 0" % (c1, c2), "bootstrap %s+%s 1" % (c1, c2)]
         for ck in cks:
             ops += ["pushstart %s 1" % ck, "poll %s 1" % ck, "totp %s 0 0" % ck, "totp %s 0 1" % ck,
-                    "bootstrap %s 1" % ck, "u2fbegin %s" % ck]
+                    "bootstrap %s 1" % ck, "u2fbegin %s" % ck, "totpenrol %s" % ck, "hwrename %s 0" % ck]
             if nc:
                 ops.append("u2ffinish %s 0 u %d" % (ck, nc - 1))
     else:  # "hw-cli": both hardware token endpoints, both token kinds, CLI tokens
@@ -530,7 +591,7 @@ def run(ctx):
         if not quick:
             exh_stats = []
             # user 0 of the first family is a legacy-enrolled user (bit 8), see Seq.__init__
-            for depth, reset, fam in ((6, "reset 11 0 0 2 htp", "push-totp-u2f"), (6, "reset 6 0 4 2 htp", "hw-cli")):
+            for depth, reset, fam in ((6, "reset 11 0 0 2 htp@", "push-totp-u2f"), (6, "reset 6 0 4 2 htp", "hw-cli")):
                 edges, st, nstates = enumerate_exhaustive(ctx, depth, reset, fam, cap=80000)
                 exh_stats.append({"family": fam, "config": reset, "depth": depth, "levels": st, "states": nstates,
                                   "edges": len(edges)})
